@@ -406,13 +406,14 @@ class GroupEffectsMatrix:
             delta = term_matrix.shape[1] if term_matrix.ndim == 2 else 1
             matrices_to_stack.append(term_matrix)
 
-            slice_original = self.slices[term.name]
             slice_new = slice(start, start + delta)
 
-            slice_w_original = get_slice_width(slice_original)
+            # Compare with the width of the training block and not with the slice of 'self', which
+            # may itself be the result of 'evaluate_new_data' on a frame with a new group.
+            slice_w_original = term.data.shape[1] if term.data.ndim == 2 else 1
             slice_w_new = get_slice_width(slice_new)
 
-            # If the width of the slices differ, there's a new column, thus a new group.
+            # If the widths differ, there's a new column, thus a new group.
             if slice_w_original != slice_w_new and term.factor.name not in factors_with_new_levels:
                 factors_with_new_levels.append(term.factor.name)
 
